@@ -25,6 +25,7 @@ RULE = ("API level (virtual clock): real Throttle / StreamThrottle / ThrottleStr
 ASSUMPTIONS = ["virtual time of the simulated loop; eps = half a byte per reset fold plus float slack",
                "the bound is cumulative since the first limited I/O (an idle period earns credit), as the statement says"]
 REQUIRED_MONITORS = ["bound_checks", "delay_checks", "unlimited_ops", "e2e_bound_checks", "e2e_duration"]
+ANCHOR_FUNCTIONS = ['common.py:Throttle.wait', 'common.py:Throttle.append', 'common.py:ThrottleStreamIO.wait']
 EXHAUSTIVE = {"quick": False, "thorough": False}
 
 
